@@ -1277,8 +1277,11 @@ func (m *MapPollard) GetHash(pos uint64) Hash {
 	m.rwLock.RLock()
 	defer m.rwLock.RUnlock()
 
-	if m.TotalRows != TreeRows(m.NumLeaves) {
-		pos = translatePos(pos, TreeRows(m.NumLeaves), m.TotalRows)
+	// Only positions of a forest with TreeRows(m.NumLeaves) rows can be
+	// translated. Anything past its root is looked up as is.
+	forestRows := TreeRows(m.NumLeaves)
+	if m.TotalRows != forestRows && pos < maxPosition(forestRows) {
+		pos = translatePos(pos, forestRows, m.TotalRows)
 	}
 	leaf, _ := m.Nodes.Get(pos)
 	return leaf.Hash
